@@ -36,6 +36,33 @@ PROPS = {
         "partial_note": "image-level composition pending",
         "rule": "filter_line with alpha_bytes in {1,2} on rows with random transparent runs (all / none / mixed) for the five filters; e2e with optimize_alpha=true; distinct as C01",
     },
+    "C08": {
+        "lean": ["OxiModel.Props.C08"],
+        "streams": [{"name": "corr-lineage", "args": ["C08"], "quick": 1600, "thorough": 30000},
+                    {"name": "corr-reduce", "quick": 4000, "thorough": 80000}],
+        "oracles": [{"name": "e2e", "args": ["C08"], "quick": 4000, "thorough": 60000}],
+        "claim": "Lean 4 theorems: one frame lemma per reduction (what it may change in the header), the guard table of perform_reductions, `step_respects` (every allowed operation respects every "
+                 "disabled switch: bit depth, colour-type code, gray/colour, exact palette of an image that stays indexed, interlace flag, dimensions) and the closure theorem over arbitrary chains of "
+                 "allowed operations (leaf result not extended), plus `nothing_enabled_identity`. Orchestration is tied by lineage reconstruction: every image handed to an evaluator (tap) and the image "
+                 "finally serialised must lie in the Lean-computed closure of the parsed input under the allowed operations, for all 16 switch subsets; e2e oracle checks headers/palette/IDAT identity.",
+        "note": "The three palette sorters battiato/mzeng are covered as 'any palette permutation' (canonical form) and only when palette changes are enabled; with alpha optimisation on, colour under "
+                "transparent pixels is free in the comparison. The order/conditions under which perform_reductions tries things are deliberately not modelled (free to change).",
+        "technique": "Lean 4 proof (frame lemmas + induction over operation chains) + lineage reconstruction against the code",
+        "rule": "generated images x options with the four reduction switches cycling through all 16 subsets x interlace keep/0/1 x alpha; observed = images submitted to evaluators + serialised image; "
+                "distinct = distinct lineage requests",
+    },
+    "C13": {
+        "lean": ["OxiModel.Props.C13"],
+        "streams": [{"name": "corr-deadline", "quick": 120, "thorough": 1500}],
+        "oracles": [],
+        "claim": "Lean 4 theorems: the deadline is monotone; for every sequence of guarded reduction steps and EVERY pattern of 'already expired' answers (hence expiry at the k-th check for every k) the image "
+                 "reached is in the chain of allowed operations from the input, so all lineage theorems (switches, fidelity lemmas) apply; selection among the trials that did complete is still a completed, "
+                 "minimal trial; nothing completed => nothing selected => original kept; the never-larger decision holds for every expiry position. With the deadline override hook the real code is run with "
+                 "expiry first seen at every k in 0..K (K counted on an untimed run, single worker thread) and each run is checked for lineage membership (Lean closure) and by the C01/C03, C02, C04 oracles.",
+        "note": "Wall-clock expiry inside a running trial is not interruptible by design; the override makes 'the k-th consultation is the first to see it expired' exact. Frames (APNG) are covered in C10's stream.",
+        "technique": "Lean 4 proof (induction over guarded steps, all expiry patterns) + fault-position enumeration with the deadline hook",
+        "rule": "per (input, options) pair: every k in 0..K when K<=24, else 0,1,2,K-1,K and 12 random k (thorough: every k); distinct = distinct (lineage request, k)",
+    },
     "C15": {
         "lean": ["OxiModel.Props.C15"],
         "streams": [{"name": "corr-reduce", "quick": 4000, "thorough": 80000}],
